@@ -40,6 +40,16 @@ def merge_facts(base, other):
             continue
         f.atoms[atom] = pol
         f.order.append((atom, pol))
+    # consistency of the union: a fact of one side may contradict a fact of the other only after resolution
+    # (`nv < max(thr, 1)` with `thr == 0` and `arg < visible`)
+    for atom, pol in list(f.order):
+        if atom[0] not in ("lt", "eq"):
+            continue
+        del f.atoms[atom]
+        d = f.decide_atom(atom)
+        f.atoms[atom] = pol
+        if d is not None and d != pol:
+            return None
     return f
 
 
